@@ -24,34 +24,78 @@ def TalliesFit (ss : Sealed) (proof : List (Bytes × Bytes)) : Prop :=
 theorem C14_invalid_signature (env : Env) (ss : Sealed) (hdr : Header) (proof : List (Bytes × Bytes))
     (hh : headerOf env ss = .ok hdr) (e : Bytes × Bytes) (he : e ∈ proof) (hbad : validEntry env hdr e = false) :
     confirm env ss proof = .ok false := by
-  sorry
+  rw [confirm_eq env ss hdr proof hh]
+  have hall : (proof.all fun e => e.2.length = 64 && env.vm.sigOk e.1 (env.hdrHash hdr) e.2) = false := by
+    rw [List.all_eq_false]
+    exact ⟨e, he, by simpa [validEntry] using hbad⟩
+  rw [hall]; rfl
 
 /-- decision logic stated outright -/
 theorem C14_decision (env : Env) (ss : Sealed) (hdr : Header) (proof : List (Bytes × Bytes))
     (hh : headerOf env ss = .ok hdr) (hfit : TalliesFit ss proof) :
     confirm env ss proof = .ok (decide ((∀ e ∈ proof, validEntry env hdr e = true) ∧
                                          3 * presentVotes ss proof > 2 * totalVotes ss)) := by
-  sorry
+  rw [confirm_eq env ss hdr proof hh]
+  obtain ⟨ht, hp⟩ := hfit
+  unfold totalVotes at ht
+  unfold presentVotes at hp
+  by_cases hv : ∀ e ∈ proof, validEntry env hdr e = true
+  · have hall : (proof.all fun e => e.2.length = 64 && env.vm.sigOk e.1 (env.hdrHash hdr) e.2) = true := by
+      rw [List.all_eq_true]
+      intro e he
+      have := hv e he
+      simpa [validEntry] using this
+    rw [hall]
+    have hnc : ¬ (ss.st.stakes.totalVotes ss.st.epoch > U128_MAX
+              ∨ (proof.map fun e => ss.st.stakes.votes ss.st.epoch e.1).sum > U128_MAX) := by omega
+    simp only [Bool.not_true, Bool.false_eq_true, if_false, if_neg hnc]
+    congr 1
+    unfold presentVotes totalVotes
+    apply decide_eq_decide.mpr
+    constructor
+    · intro h; exact ⟨hv, by omega⟩
+    · intro h; have := h.2; omega
+  · have hall : (proof.all fun e => e.2.length = 64 && env.vm.sigOk e.1 (env.hdrHash hdr) e.2) = false := by
+      rw [List.all_eq_false]
+      have : ∃ e ∈ proof, ¬ validEntry env hdr e = true := by
+        simpa using hv
+      obtain ⟨e, he, hbad⟩ := this
+      exact ⟨e, he, by simpa [validEntry] using hbad⟩
+    rw [hall]
+    have : decide ((∀ e ∈ proof, validEntry env hdr e = true) ∧
+              3 * presentVotes ss proof > 2 * totalVotes ss) = false := by
+      apply decide_eq_false
+      intro h; exact hv h.1
+    rw [this]; rfl
 
 /-- more than two thirds confirms -/
 theorem C14_majority_confirms (env : Env) (ss : Sealed) (hdr : Header) (proof : List (Bytes × Bytes))
     (hh : headerOf env ss = .ok hdr) (hfit : TalliesFit ss proof)
     (hv : ∀ e ∈ proof, validEntry env hdr e = true) (hmaj : 3 * presentVotes ss proof > 2 * totalVotes ss) :
     confirm env ss proof = .ok true := by
-  sorry
+  rw [C14_decision env ss hdr proof hh hfit]
+  congr 1
+  exact decide_eq_true ⟨hv, hmaj⟩
 
 /-- two thirds or less never confirms (in particular: less than two thirds) -/
 theorem C14_minority_rejected (env : Env) (ss : Sealed) (hdr : Header) (proof : List (Bytes × Bytes))
     (hh : headerOf env ss = .ok hdr) (hfit : TalliesFit ss proof)
     (hmin : 3 * presentVotes ss proof ≤ 2 * totalVotes ss) :
     confirm env ss proof = .ok false := by
-  sorry
+  rw [C14_decision env ss hdr proof hh hfit]
+  congr 1
+  apply decide_eq_false
+  intro h; have := h.2; omega
 
 /-- an empty proof never confirms a state that has stakers -/
 theorem C14_empty (env : Env) (ss : Sealed) (hdr : Header) (hh : headerOf env ss = .ok hdr)
     (hfit : totalVotes ss ≤ U128_MAX) (hpos : 0 < totalVotes ss) :
     confirm env ss [] = .ok false := by
-  sorry
+  -- (`hpos` is not needed: with no stakers `0 * 3 > 0 * 2` is false as well)
+  have _ := hpos
+  have hfit' : TalliesFit ss [] := ⟨hfit, by simp [presentVotes]⟩
+  apply C14_minority_rejected env ss hdr [] hh hfit'
+  simp [presentVotes]
 
 /-- a proof signed (validly) by every key holding an active stake confirms -/
 theorem C14_unanimous (env : Env) (ss : Sealed) (hdr : Header) (proof : List (Bytes × Bytes))
@@ -61,7 +105,13 @@ theorem C14_unanimous (env : Env) (ss : Sealed) (hdr : Header) (proof : List (By
     (hall : ∀ d ∈ ss.st.stakes, StakeSet.active ss.st.epoch d.2 = true → d.2.pubkey ∈ proof.map (·.1))
     (hpos : 0 < totalVotes ss) :
     confirm env ss proof = .ok true := by
-  sorry
+  apply C14_majority_confirms env ss hdr proof hh hfit hv
+  have h := StakeSet.sum_votes_eq_total ss.st.stakes ss.st.epoch (proof.map (·.1)) hnodup hall
+  have hp : presentVotes ss proof = totalVotes ss := by
+    unfold presentVotes totalVotes
+    rw [← h, List.map_map]
+    rfl
+  rw [hp]; omega
 
 /-- adding a valid signature by a new key never turns a confirming proof into a non-confirming one -/
 theorem C14_monotone (env : Env) (ss : Sealed) (hdr : Header) (proof : List (Bytes × Bytes))
@@ -69,12 +119,37 @@ theorem C14_monotone (env : Env) (ss : Sealed) (hdr : Header) (proof : List (Byt
     (hfit : TalliesFit ss (e :: proof)) (hfit' : TalliesFit ss proof)
     (hc : confirm env ss proof = .ok true) (hv : validEntry env hdr e = true) :
     confirm env ss (e :: proof) = .ok true := by
-  sorry
+  rw [C14_decision env ss hdr proof hh hfit'] at hc
+  have hc' : (∀ e ∈ proof, validEntry env hdr e = true) ∧
+      3 * presentVotes ss proof > 2 * totalVotes ss := by
+    have : decide ((∀ e ∈ proof, validEntry env hdr e = true) ∧
+      3 * presentVotes ss proof > 2 * totalVotes ss) = true := by
+      injection hc
+    exact of_decide_eq_true this
+  apply C14_majority_confirms env ss hdr (e :: proof) hh hfit
+  · intro x hx
+    rcases List.mem_cons.mp hx with rfl | hx
+    · exact hv
+    · exact hc'.1 x hx
+  · have : presentVotes ss (e :: proof)
+        = ss.st.stakes.votes ss.st.epoch e.1 + presentVotes ss proof := by
+      simp [presentVotes]
+    have := hc'.2
+    omega
 
 /-- what was wrong before the `fix:` commit (finding F15): the old comparison
     `total > present / 2 * 3` confirms an empty proof and rejects a unanimous one. -/
 def oldEnough (total present : Nat) : Bool := decide (total > present / 2 * 3)
 theorem C14_old_inverted : oldEnough 90 0 = true ∧ oldEnough 90 90 = false := by
-  sorry
+  constructor <;> decide
 
 end Mel
+
+#print axioms Mel.C14_invalid_signature
+#print axioms Mel.C14_decision
+#print axioms Mel.C14_majority_confirms
+#print axioms Mel.C14_minority_rejected
+#print axioms Mel.C14_empty
+#print axioms Mel.C14_unanimous
+#print axioms Mel.C14_monotone
+#print axioms Mel.C14_old_inverted
